@@ -211,10 +211,13 @@ const (
 )
 
 const (
-	HowMapAll    = iota // all four options written explicitly into CompileOptions
-	HowMapSparse        // only the disabled ones written (absent means enabled)
-	HowOptionFn         // eval.Optimizations(...) option functions
-	HowDirective        // leading ;;;; directive comments in the source
+	HowMapAll       = iota // all four options written explicitly into CompileOptions
+	HowMapSparse           // only the disabled ones written (absent means enabled)
+	HowOptionFn            // eval.Optimizations(...) option functions
+	HowDirective           // leading ;;;; directive comments in the source
+	HowDirectiveOpp        // the same directive over a config whose four options are written to the opposite values
+	HowCopySet             // a config with the opposite options is built completely, copied with CopyConfig, and the options are set on the copy
+	HowExtendSet           // ... copied with NewConfig(ExtendConf(conf), Optimizations(...)) instead
 	howModes
 )
 
@@ -323,11 +326,27 @@ func NewConfig(u *Universe, log *Log, b Build) (*eval.Config, string) {
 		default:
 			opts = append(opts, eval.Optimizations(false), eval.Optimizations(true, on...))
 		}
-	case HowDirective:
+	case HowDirective, HowDirectiveOpp:
 		prefix = directive(b.Mask, b.Variant)
+	}
+	optionFns := func() []eval.Option {
+		var on []eval.CompileOption
+		for i, o := range allOpts {
+			if b.Mask&(1<<i) != 0 {
+				on = append(on, o)
+			}
+		}
+		if len(on) == 0 {
+			return []eval.Option{eval.Optimizations(false)}
+		}
+		return []eval.Option{eval.Optimizations(false), eval.Optimizations(true, on...)}
 	}
 	cc := eval.NewConfig(opts...)
 	switch b.How {
+	case HowDirectiveOpp, HowCopySet, HowExtendSet:
+		for i, o := range allOpts {
+			cc.CompileOptions[o] = b.Mask&(1<<i) == 0
+		}
 	case HowMapAll:
 		for i, o := range allOpts {
 			cc.CompileOptions[o] = b.Mask&(1<<i) != 0
@@ -361,6 +380,16 @@ func NewConfig(u *Universe, log *Log, b Build) (*eval.Config, string) {
 		registerCustom(cc, log)
 	}
 	cc.StatelessOperators = append(cc.StatelessOperators, u.Stateless...)
+	switch b.How {
+	case HowCopySet:
+		cp := eval.CopyConfig(cc)
+		for i, o := range allOpts {
+			cp.CompileOptions[o] = b.Mask&(1<<i) != 0
+		}
+		return cp, prefix
+	case HowExtendSet:
+		return eval.NewConfig(append([]eval.Option{eval.ExtendConf(cc)}, optionFns()...)...), prefix
+	}
 	return cc, prefix
 }
 
